@@ -86,6 +86,14 @@ Lemma upd_same {A} (l : list A) t x : nth_error l t = Some x -> upd l t x = l.
 Proof. revert t; induction l as [|h r IH]; destruct t; cbn; intros H; try discriminate; [inversion H; reflexivity|]. rewrite (IH _ H). reflexivity. Qed.
 Lemma upd_upd {A} (l : list A) t x y : upd (upd l t x) t y = upd l t y.
 Proof. revert t; induction l as [|h r IH]; destruct t; cbn; auto. rewrite IH. reflexivity. Qed.
+Lemma upd_app_l {A} (l1 l2 : list A) t x y : nth_error l1 t = Some x -> upd (l1 ++ l2) t y = upd l1 t y ++ l2.
+Proof. revert t; induction l1 as [|h r IH]; destruct t; cbn; intros H; try discriminate; auto. rewrite (IH _ H). reflexivity. Qed.
+Lemma upd_app_r {A} (l1 l2 : list A) t y : upd (l1 ++ l2) (length l1 + t) y = l1 ++ upd l2 t y.
+Proof. induction l1 as [|h r IH]; cbn; auto. rewrite IH. reflexivity. Qed.
+Lemma nth_app_l {A} (l1 l2 : list A) t x : nth_error l1 t = Some x -> nth_error (l1 ++ l2) t = Some x.
+Proof. intros H. rewrite nth_error_app1; [exact H|]. apply nth_error_Some. congruence. Qed.
+Lemma nth_app_r {A} (l1 l2 : list A) t : nth_error (l1 ++ l2) (length l1 + t) = nth_error l2 t.
+Proof. rewrite nth_error_app2 by lia. f_equal. lia. Qed.
 
 Lemma idle_at l : idle l = true -> at_ l = Idle.
 Proof. unfold idle. destruct (at_ l); congruence. Qed.
@@ -99,45 +107,91 @@ Proof.
   pose proof (Inv_step _ _ _ _ _ _ _ _ HI' (nth_upd_eq _ _ _ _ Hl) Hs) as H. rewrite upd_upd in H. exact H.
 Qed.
 
-Definition Inv2 (g : glob2) (ls : list loc2) : Prop := Inv (gA g) (map lA ls) /\ Inv (gB g) (map lB ls).
+(* the threads of A's automaton: thread t's own pc, then (under the id nthr + t) its second pc in A *)
+Definition lsA (ls : list loc2) : list loc := map lA ls ++ map lA2 ls.
+Definition Inv2 (g : glob2) (ls : list loc2) : Prop :=
+  Inv (gA g) (lsA ls) /\ Inv (gB g) (map lB ls) /\ nthr g = length ls.
+
+Section LsA.
+  Variables (ls : list loc2) (t : nat) (l : loc2).
+  Hypothesis Hl : nth_error ls t = Some l.
+  Lemma lsA_nth1 : nth_error (lsA ls) t = Some (lA l).
+  Proof. apply nth_app_l. apply map_nth_error. exact Hl. Qed.
+  Lemma lsA_nth2 : nth_error (lsA ls) (length ls + t) = Some (lA2 l).
+  Proof. unfold lsA. rewrite <- (map_length lA ls), nth_app_r. apply map_nth_error. exact Hl. Qed.
+  Lemma lsA_upd l' : lsA (upd ls t l') = upd (upd (lsA ls) t (lA l')) (length ls + t) (lA2 l').
+  Proof.
+    unfold lsA. rewrite !map_upd. rewrite (upd_app_l _ _ _ (lA l) _ (map_nth_error lA _ _ Hl)).
+    rewrite <- (map_length lA ls) at 1. rewrite <- (upd_length (map lA ls) t (lA l')), upd_app_r. reflexivity.
+  Qed.
+  Lemma lsA_upd1 l' : lA2 l' = lA2 l -> lsA (upd ls t l') = upd (lsA ls) t (lA l').
+  Proof.
+    intros E. rewrite lsA_upd, E. apply upd_same. rewrite nth_upd_ne; [apply lsA_nth2|].
+    assert (t < length ls)%nat by (apply nth_error_Some; congruence). lia.
+  Qed.
+  Lemma lsA_upd2 l' : lA l' = lA l -> lsA (upd ls t l') = upd (lsA ls) (length ls + t) (lA2 l').
+  Proof. intros E. rewrite lsA_upd, E, (upd_same _ _ _ lsA_nth1). reflexivity. Qed.
+  Lemma lsA_upd0 l' : lA l' = lA l -> lA2 l' = lA2 l -> lsA (upd ls t l') = lsA ls.
+  Proof. intros E1 E2. rewrite (lsA_upd2 _ E1), E2. apply upd_same. apply lsA_nth2. Qed.
+  Lemma lsA_nth2_after x : nth_error (upd (lsA ls) t x) (length ls + t) = Some (lA2 l).
+  Proof.
+    rewrite nth_upd_ne; [apply lsA_nth2|]. assert (t < length ls)%nat by (apply nth_error_Some; congruence). lia.
+  Qed.
+End LsA.
 
 Lemma Inv2_step g ls t c l g' l' es :
   Inv2 g ls -> nth_error ls t = Some l -> tstep2 t c g l = Some (g', l', es) -> Inv2 g' (upd ls t l').
 Proof.
-  intros [HA HB] Hl Hs. unfold Inv2. rewrite !map_upd.
-  pose proof (map_nth_error lA _ _ Hl) as HlA. pose proof (map_nth_error lB _ _ Hl) as HlB.
+  intros (HA & HB & Hn) Hl Hs. unfold Inv2. rewrite map_upd, upd_length.
+  pose proof (lsA_nth1 _ _ _ Hl) as Hl1. pose proof (lsA_nth2 _ _ _ Hl) as Hl2. rewrite <- Hn in Hl2.
+  pose proof (map_nth_error lB _ _ Hl) as HlB.
+  assert (KeepB : forall lx, lx = lB l -> upd (map lB ls) t lx = map lB ls) by (intros lx ->; apply upd_same; exact HlB).
   unfold tstep2 in Hs.
+  destruct (idle (lA2 l)) eqn:I2; cbn [negb] in Hs.
+  2:{ destruct (tstep (nthr g + t) c (gA g) (lA2 l)) as [[[gA' lA2'] es0]|] eqn:E; [|discriminate]. inversion Hs; subst; clear Hs.
+      cbn [gA gB nthr lA lA2 lB]. rewrite (lsA_upd2 _ _ _ Hl) by reflexivity. cbn [lA2]. rewrite <- Hn.
+      split; [eapply Inv_step; eauto|]. split; [rewrite KeepB by reflexivity; exact HB|first [exact Hn|reflexivity]]. }
   destruct (idle (lB l)) eqn:IB; cbn [negb] in Hs.
-  2:{ (* a call on B is in progress *)
-      destruct (tstep t c (gB g) (lB l)) as [[[gB' lB'] es0]|] eqn:E; [|discriminate]. inversion Hs; subst; clear Hs. cbn [gA gB lA lB].
-      split; [rewrite (upd_same _ _ _ HlA); exact HA|eapply Inv_step; eauto]. }
+  2:{ destruct (tstep t c (gB g) (lB l)) as [[[gB' lB'] es0]|] eqn:E; [|discriminate]. inversion Hs; subst; clear Hs.
+      cbn [gA gB nthr lA lA2 lB]. rewrite (lsA_upd0 _ _ _ Hl) by reflexivity.
+      split; [exact HA|]. split; [eapply Inv_step; eauto|first [exact Hn|reflexivity]]. }
   destruct (idle (lA l)) eqn:IA; cbn [negb] in Hs.
-  2:{ (* a call on A is in progress *)
-      destruct (tstep t c (gA g) (lA l)) as [[[gA' lA'] es0]|] eqn:E; [|discriminate].
-      assert (HA' : Inv gA' (upd (map lA ls) t lA')) by (eapply Inv_step; eauto).
-      assert (Same : Inv2 (Glob2 gA' (gB g) (nest g)) (upd ls t (Loc2 (prog2 l) lA' (lB l)))).
-      { unfold Inv2. rewrite !map_upd. cbn [gA gB lA lB]. split; [exact HA'|rewrite (upd_same _ _ _ HlB); exact HB]. }
-      unfold Inv2 in Same. rewrite !map_upd in Same.
-      destruct (at_ (lA l)); try (inversion Hs; subst; clear Hs; exact Same).
-      destruct (nlookup (btask b) (nest g)) as [[ia fid2]|]; [|inversion Hs; subst; clear Hs; exact Same].
-      destruct (tstep t c (gB g) (with_op (lB l) (inner_op ia fid2))) as [[[gB' lB'] esB]|] eqn:E2; [|discriminate].
-      inversion Hs; subst; clear Hs. cbn [gA gB lA lB]. split; [exact HA'|eapply Inv_start; eauto]. }
+  2:{ destruct (tstep t c (gA g) (lA l)) as [[[gA' lA'] es0]|] eqn:E; [|discriminate].
+      assert (HA' : Inv gA' (upd (lsA ls) t lA')) by (eapply Inv_step; eauto).
+      assert (Plain : forall gn, Inv2 (Glob2 gA' (gB g) gn (nthr g)) (upd ls t (Loc2 (prog2 l) lA' (lA2 l) (lB l)))).
+      { intros gn. unfold Inv2. rewrite map_upd, upd_length. cbn [gA gB nthr lA lA2 lB].
+        rewrite (lsA_upd1 _ _ _ Hl) by reflexivity. cbn [lA]. rewrite KeepB by reflexivity. auto. }
+      unfold Inv2 in Plain. rewrite map_upd, upd_length in Plain.
+      destruct (at_ (lA l)); try (inversion Hs; subst; clear Hs; apply Plain).
+      destruct (nlookup (btask b) (nest g)) as [[[[|] ia] fid2]|]; [| |inversion Hs; subst; clear Hs; apply Plain].
+      - destruct (tstep (nthr g + t) c gA' (with_op (lA2 l) (inner_op ia fid2))) as [[[gA'' lA2'] esA]|] eqn:E2; [|discriminate].
+        inversion Hs; subst; clear Hs. cbn [gA gB nthr lA lA2 lB]. rewrite (lsA_upd _ _ _ Hl). cbn [lA lA2]. rewrite <- Hn.
+        split; [|split; [rewrite KeepB by reflexivity; exact HB|first [exact Hn|reflexivity]]].
+        eapply Inv_start; [exact HA'| |exact I2|exact E2]. rewrite Hn. apply (lsA_nth2_after _ _ _ Hl).
+      - destruct (tstep t c (gB g) (with_op (lB l) (inner_op ia fid2))) as [[[gB' lB'] esB]|] eqn:E2; [|discriminate].
+        inversion Hs; subst; clear Hs. cbn [gA gB nthr lA lA2 lB]. rewrite (lsA_upd1 _ _ _ Hl) by reflexivity. cbn [lA].
+        split; [exact HA'|]. split; [eapply Inv_start; eauto|first [exact Hn|reflexivity]]. }
   (* the next operation of the program starts *)
-  destruct (prog2 l) as [|[o|o|code o ia fid2] r]; [discriminate| | |].
+  destruct (prog2 l) as [|[o|o|code o self ia fid2] r]; [discriminate| | |].
   - destruct (tstep t c (gA g) (with_op (lA l) o)) as [[[gA' lA'] es0]|] eqn:E; [|discriminate]. inversion Hs; subst; clear Hs.
-    cbn [gA gB lA lB]. split; [eapply Inv_start; eauto|rewrite (upd_same _ _ _ HlB); exact HB].
+    cbn [gA gB nthr lA lA2 lB]. rewrite (lsA_upd1 _ _ _ Hl) by reflexivity. cbn [lA]. rewrite KeepB by reflexivity.
+    split; [eapply Inv_start; eauto|auto].
   - destruct (tstep t c (gB g) (with_op (lB l) o)) as [[[gB' lB'] es0]|] eqn:E; [|discriminate]. inversion Hs; subst; clear Hs.
-    cbn [gA gB lA lB]. split; [rewrite (upd_same _ _ _ HlA); exact HA|eapply Inv_start; eauto].
+    cbn [gA gB nthr lA lA2 lB]. rewrite (lsA_upd0 _ _ _ Hl) by reflexivity.
+    split; [exact HA|]. split; [eapply Inv_start; eauto|first [exact Hn|reflexivity]].
   - destruct (tstep t c (gA g) (with_op (lA l) o)) as [[[gA' lA'] es0]|] eqn:E; [|discriminate]. inversion Hs; subst; clear Hs.
-    cbn [gA gB lA lB]. split; [eapply Inv_start; eauto|rewrite (upd_same _ _ _ HlB); exact HB].
+    cbn [gA gB nthr lA lA2 lB]. rewrite (lsA_upd1 _ _ _ Hl) by reflexivity. cbn [lA]. rewrite KeepB by reflexivity.
+    split; [eapply Inv_start; eauto|auto].
 Qed.
 
 Lemma Inv2_init m progs : Inv2 (gl (init2 m progs)) (thr (init2 m progs)).
 Proof.
-  unfold init2, Inv2; cbn [gl thr gA gB]. rewrite !map_map. cbn [lA lB].
-  assert (E : map (fun _ : list op2 => init_loc) progs = map (fun p => Loc p Idle [] []) (map (fun _ => []) progs)).
-  { rewrite map_map. reflexivity. }
-  rewrite E. split; apply (Inv_init m [] (map (fun _ => []) progs)).
+  unfold init2, Inv2, lsA; cbn [gl thr gA gB nthr]. rewrite !map_map, map_length. cbn [lA lA2 lB].
+  assert (E : forall ps : list (list op2), map (fun _ : list op2 => init_loc) ps = map (fun p => Loc p Idle [] []) (map (fun _ => @nil op) ps)).
+  { intros ps. rewrite map_map. reflexivity. }
+  split; [|split; [|reflexivity]].
+  - rewrite E, <- map_app. apply (Inv_init m [] (map (fun _ => []) progs ++ map (fun _ => []) progs)).
+  - rewrite E. apply (Inv_init m [] (map (fun _ => []) progs)).
 Qed.
 
 Definition R2 (m : Z) (progs : list (list op2)) (s : sys glob2 loc2) : Prop :=
@@ -150,11 +204,12 @@ Proof. intros H. eapply reachable_inv; [apply Inv2_step|apply Inv2_init|exact H]
 (* 4. Per-object exclusion facts in the product (x = false: object A, x = true: object B) *)
 (* ================================================================== *)
 Definition objg (x : bool) (g : glob2) : glob := if x then gB g else gA g.
-Definition objl (x : bool) (l : loc2) : loc := if x then lB l else lA l.
-Definition objls (x : bool) (ls : list loc2) : list loc := map (objl x) ls.
+Definition objls (x : bool) (ls : list loc2) : list loc := if x then map lB ls else lsA ls.
+(* the pcs a thread has in object x *)
+Definition objpcs (x : bool) (l : loc2) : list loc := if x then [lB l] else [lA l; lA2 l].
 
 Lemma R2_obj_inv m progs s x : R2 m progs s -> Inv (objg x (gl s)) (objls x (thr s)).
-Proof. intros HR. destruct (R2_inv _ _ _ HR) as [HA HB]. destruct x; assumption. Qed.
+Proof. intros HR. destruct (R2_inv _ _ _ HR) as (HA & HB & _). destruct x; assumption. Qed.
 
 (* while a shared handle on object x is alive (a client's, or the one inside load), no thread is inside an
    exclusive section of x - in particular no functor runs on x, whoever submitted it and from wherever *)
@@ -162,43 +217,70 @@ Lemma rw_exclusion2 m progs s x t : R2 m progs s -> (1 <= shl (locof (objls x (t
   forall u, holdsX (pcof (objls x (thr s)) u) = false.
 Proof. intros HR. apply (rw_exclusion_inv (objg x (gl s))). apply (R2_obj_inv m progs). exact HR. Qed.
 
+Lemma inner_start_pc t c g l ia fid2 g' l' es :
+  tstep t c g (with_op l (inner_op ia fid2)) = Some (g', l', es) -> holdsX (at_ l') = false.
+Proof. unfold tstep, tstep0, with_op, inner_op. destruct ia; cbn; intros H; inversion H; reflexivity. Qed.
+
 (* ... and no step of the product enters one: no modification of x can start, not even the inner submission of
-   a modification function of the other object *)
+   a modification function (of the other object, or of x itself) *)
 Lemma no_exclusive_starts2 m progs s x t u c l g' l' es : R2 m progs s -> (1 <= shl (locof (objls x (thr s)) t))%nat ->
-  nth_error (thr s) u = Some l -> tstep2 u c (gl s) l = Some (g', l', es) -> holdsX (at_ (objl x l')) = false.
+  nth_error (thr s) u = Some l -> tstep2 u c (gl s) l = Some (g', l', es) ->
+  forall lx, In lx (objpcs x l') -> holdsX (at_ lx) = false.
 Proof.
   intros HR Hs Hl Hst. pose proof (R2_obj_inv m progs s x HR) as HI.
-  pose proof (rw_exclusion_inv _ _ t HI Hs u) as Hold. unfold objls in *.
-  pose proof (map_nth_error (objl x) _ _ Hl) as HlX. rewrite (pcof_at _ _ _ HlX) in Hold.
-  (* a step of object x's automaton from the stored state, or from the stored state handed an operation *)
-  assert (Step : forall lx c0 gx' lx' esx, tstep u c0 (objg x (gl s)) lx = Some (gx', lx', esx) ->
-                 at_ lx = at_ (objl x l) -> hand lx = hand (objl x l) -> holdsX (at_ lx') = false).
-  { intros lx c0 gx' lx' esx Hx Ea Eh.
-    assert (Inv (objg x (gl s)) (upd (map (objl x) (thr s)) u lx)) as HI' by (apply (Inv_reloc _ _ _ _ _ HlX Ea Eh HI)).
-    apply (no_exclusive_starts_inv _ _ t u c0 lx gx' lx' esx HI'); [|apply (nth_upd_eq _ _ _ _ HlX)|exact Hx].
-    rewrite (locof_upd _ _ _ _ _ HlX). destruct (Nat.eqb_spec t u) as [->|_]; [|exact Hs].
-    rewrite (locof_at _ _ _ HlX) in Hs. unfold shl in *. rewrite Ea, Eh. exact Hs. }
+  destruct (R2_inv _ _ _ HR) as (_ & _ & Hn).
+  pose proof (rw_exclusion_inv _ _ t HI Hs) as Hold.
+  pose proof (lsA_nth1 _ _ _ Hl) as Hl1. pose proof (lsA_nth2 _ _ _ Hl) as Hl2. rewrite <- Hn in Hl2.
+  pose proof (map_nth_error lB _ _ Hl) as HlB.
+  (* a step of object x's automaton by the thread with index i there, from its stored state (possibly handed an operation) *)
+  assert (Step : forall i lx0 lx c0 gx' lx' esx, nth_error (objls x (thr s)) i = Some lx0 ->
+                 tstep i c0 (objg x (gl s)) lx = Some (gx', lx', esx) ->
+                 at_ lx = at_ lx0 -> hand lx = hand lx0 -> holdsX (at_ lx') = false).
+  { intros i lx0 lx c0 gx' lx' esx Hi Hx Ea Eh.
+    assert (Inv (objg x (gl s)) (upd (objls x (thr s)) i lx)) as HI' by (apply (Inv_reloc _ _ _ _ _ Hi Ea Eh HI)).
+    apply (no_exclusive_starts_inv _ _ t i c0 lx gx' lx' esx HI'); [|apply (nth_upd_eq _ _ _ _ Hi)|exact Hx].
+    rewrite (locof_upd _ _ _ _ _ Hi). destruct (Nat.eqb_spec t i) as [->|_]; [|exact Hs].
+    rewrite (locof_at _ _ _ Hi) in Hs. unfold shl in *. rewrite Ea, Eh. exact Hs. }
+  assert (OA : x = false -> holdsX (at_ (lA l)) = false /\ holdsX (at_ (lA2 l)) = false).
+  { intros ->. cbn [objls] in Hold. split.
+    - rewrite <- (pcof_at _ _ _ Hl1). apply Hold.
+    - rewrite <- (pcof_at _ _ _ Hl2). apply Hold. }
+  assert (OB : x = true -> holdsX (at_ (lB l)) = false).
+  { intros ->. cbn [objls] in Hold. rewrite <- (pcof_at _ _ _ HlB). apply Hold. }
+  assert (Fin : forall a a2 b, (x = false -> holdsX (at_ a) = false /\ holdsX (at_ a2) = false) ->
+                (x = true -> holdsX (at_ b) = false) ->
+                forall lx, In lx (objpcs x (Loc2 (prog2 l') a a2 b)) -> holdsX (at_ lx) = false).
+  { intros a a2 b FA FB lx. destruct x; cbn; intros [<-|[<-|[]]] || intros [<-|[]]; try (apply FB; reflexivity);
+      destruct (FA eq_refl); assumption. }
   unfold tstep2 in Hst.
+  destruct (idle (lA2 l)) eqn:I2; cbn [negb] in Hst.
+  2:{ destruct (tstep (nthr (gl s) + u) c (gA (gl s)) (lA2 l)) as [[[gA' lA2'] es0]|] eqn:E; [|discriminate]. inversion Hst; subst; clear Hst.
+      apply Fin; [|exact OB]. intros ->. split; [apply OA; reflexivity|]. eapply (Step _ (lA2 l) (lA2 l)); eauto. }
   destruct (idle (lB l)) eqn:IB; cbn [negb] in Hst.
   2:{ destruct (tstep u c (gB (gl s)) (lB l)) as [[[gB' lB'] es0]|] eqn:E; [|discriminate]. inversion Hst; subst; clear Hst.
-      destruct x; cbn [objl lA lB] in *; [eapply (Step (lB l)); eauto|exact Hold]. }
+      apply Fin; [exact OA|]. intros ->. eapply (Step _ (lB l) (lB l)); eauto. }
   destruct (idle (lA l)) eqn:IA; cbn [negb] in Hst.
   2:{ destruct (tstep u c (gA (gl s)) (lA l)) as [[[gA' lA'] es0]|] eqn:E; [|discriminate].
-      assert (SA : x = false -> holdsX (at_ lA') = false) by (intros ->; eapply (Step (lA l)); eauto).
-      destruct (at_ (lA l)) eqn:EA; try (inversion Hst; subst; clear Hst; destruct x; cbn [objl lA lB] in *; auto; fail).
-      destruct (nlookup (btask b) (nest (gl s))) as [[ia fid2]|];
-        [|inversion Hst; subst; clear Hst; destruct x; cbn [objl lA lB] in *; auto].
-      destruct (tstep u c (gB (gl s)) (with_op (lB l) (inner_op ia fid2))) as [[[gB' lB'] esB]|] eqn:E2; [|discriminate].
-      inversion Hst; subst; clear Hst. destruct x; cbn [objl lA lB] in *; [|auto].
-      apply idle_at in IB. eapply (Step (with_op (lB l) (inner_op ia fid2))); eauto; cbn; congruence. }
+      assert (SA : x = false -> holdsX (at_ lA') = false) by (intros ->; eapply (Step _ (lA l) (lA l)); eauto).
+      assert (Plain : forall lx, In lx (objpcs x (Loc2 (prog2 l) lA' (lA2 l) (lB l))) -> holdsX (at_ lx) = false).
+      { apply (Fin lA' (lA2 l) (lB l)); [|exact OB]. intros Hx. split; [auto|apply OA; exact Hx]. }
+      destruct (at_ (lA l)) eqn:EA; try (inversion Hst; subst; clear Hst; exact Plain).
+      destruct (nlookup (btask b) (nest (gl s))) as [[[[|] ia] fid2]|]; [| |inversion Hst; subst; clear Hst; exact Plain].
+      - destruct (tstep (nthr (gl s) + u) c gA' (with_op (lA2 l) (inner_op ia fid2))) as [[[gA'' lA2'] esA]|] eqn:E2; [|discriminate].
+        inversion Hst; subst; clear Hst. apply Fin; [|exact OB]. intros Hx. split; [auto|]. eapply inner_start_pc; eauto.
+      - destruct (tstep u c (gB (gl s)) (with_op (lB l) (inner_op ia fid2))) as [[[gB' lB'] esB]|] eqn:E2; [|discriminate].
+        inversion Hst; subst; clear Hst. apply Fin; [|intros _; eapply inner_start_pc; eauto].
+        intros Hx. split; [auto|apply OA; exact Hx]. }
   apply idle_at in IA. apply idle_at in IB.
-  destruct (prog2 l) as [|[o|o|code o ia fid2] r]; [discriminate| | |].
+  destruct (prog2 l) as [|[o|o|code o self ia fid2] r]; [discriminate| | |].
   - destruct (tstep u c (gA (gl s)) (with_op (lA l) o)) as [[[gA' lA'] es0]|] eqn:E; [|discriminate]. inversion Hst; subst; clear Hst.
-    destruct x; cbn [objl lA lB] in *; [exact Hold|]. eapply (Step (with_op (lA l) o)); eauto; cbn; congruence.
+    apply Fin; [|exact OB]. intros ->. split; [|apply OA; reflexivity].
+    eapply (Step _ (lA l) (with_op (lA l) o)); eauto; cbn; congruence.
   - destruct (tstep u c (gB (gl s)) (with_op (lB l) o)) as [[[gB' lB'] es0]|] eqn:E; [|discriminate]. inversion Hst; subst; clear Hst.
-    destruct x; cbn [objl lA lB] in *; [|exact Hold]. eapply (Step (with_op (lB l) o)); eauto; cbn; congruence.
+    apply Fin; [exact OA|]. intros ->. eapply (Step _ (lB l) (with_op (lB l) o)); eauto; cbn; congruence.
   - destruct (tstep u c (gA (gl s)) (with_op (lA l) o)) as [[[gA' lA'] es0]|] eqn:E; [|discriminate]. inversion Hst; subst; clear Hst.
-    destruct x; cbn [objl lA lB] in *; [exact Hold|]. eapply (Step (with_op (lA l) o)); eauto; cbn; congruence.
+    apply Fin; [|exact OB]. intros ->. split; [|apply OA; reflexivity].
+    eapply (Step _ (lA l) (with_op (lA l) o)); eauto; cbn; congruence.
 Qed.
 
 (* a functor running on object x - directly, out of x's queue, or as the inner submission of a nested functor -
